@@ -351,4 +351,125 @@ mod verif_kani {
         kani::cover!(k0 > k1 && k1 > k2);
         kani::cover!(k1 > k2 && k2 > k0);
     }
+
+    fn puth(m: &mut VecMap<u8, u8>, h: u32, k: u8, v: u8) {
+        m.insert_hashed_unique_unchecked(
+            Hashed::new_unchecked(StarlarkHashValue::new_unchecked(h), k),
+            v,
+        );
+    }
+
+    fn find(m: &VecMap<u8, u8>, h: u32, k: u8) -> Option<usize> {
+        m.get_index_of_hashed(Hashed::new_unchecked(
+            StarlarkHashValue::new_unchecked(h),
+            &k,
+        ))
+    }
+
+    fn three(k: &[u8; 3], h: &[u32; 3], v: &[u8; 3]) -> VecMap<u8, u8> {
+        kani::assume(k[0] != k[1] && k[1] != k[2] && k[0] != k[2]);
+        let mut m: VecMap<u8, u8> = VecMap::new();
+        puth(&mut m, h[0], k[0], v[0]);
+        puth(&mut m, h[1], k[1], v[1]);
+        puth(&mut m, h[2], k[2], v[2]);
+        m
+    }
+
+    /// Scenario against a plain array of entries: three inserts, lookup by key (hashes may collide), remove at a
+    /// symbolic index; the other two entries keep their order, hashes stay with their keys.
+    #[kani::proof]
+    #[kani::unwind(8)]
+    fn c11_vec_map_insert_find_remove_bounded() {
+        let k: [u8; 3] = [kani::any(), kani::any(), kani::any()];
+        let h: [u32; 3] = [kani::any(), kani::any(), kani::any()];
+        let v: [u8; 3] = [kani::any(), kani::any(), kani::any()];
+        let mut m = three(&k, &h, &v);
+        assert!(m.len() == 3);
+        assert!(find(&m, h[1], k[1]) == Some(1));
+        assert!(find(&m, h[2], k[2]) == Some(2));
+        let absent: u8 = kani::any();
+        kani::assume(absent != k[0] && absent != k[1] && absent != k[2]);
+        assert!(find(&m, h[1], absent).is_none());
+
+        let i: usize = kani::any();
+        kani::assume(i < 3);
+        let (rk, rv) = m.remove(i);
+        assert!(*rk.key() == k[i] && rk.hash().get() == h[i] && rv == v[i]);
+        let (a, b) = match i {
+            0 => (1, 2),
+            1 => (0, 2),
+            _ => (0, 1),
+        };
+        assert!(m.len() == 2);
+        assert!(m.get_index(0) == Some((&k[a], &v[a])));
+        assert!(m.get_index(1) == Some((&k[b], &v[b])));
+        assert!(m.get_index(2).is_none());
+        assert!(find(&m, h[b], k[b]) == Some(1));
+        assert!(find(&m, h[i], k[i]).is_none());
+        kani::cover!(h[0] == h[1] && h[1] == h[2]);
+        kani::cover!(i == 1);
+    }
+
+    /// Scenario against a plain array of entries: reverse, retain with a symbolic predicate, pop.
+    #[kani::proof]
+    #[kani::unwind(8)]
+    fn c11_vec_map_reverse_retain_pop_bounded() {
+        let k: [u8; 3] = [kani::any(), kani::any(), kani::any()];
+        let h: [u32; 3] = [kani::any(), kani::any(), kani::any()];
+        let v: [u8; 3] = [kani::any(), kani::any(), kani::any()];
+        let mut m = three(&k, &h, &v);
+
+        // reverse: entries and hashes are reversed together
+        m.reverse();
+        assert!(m.get_index(0) == Some((&k[2], &v[2])));
+        assert!(m.get_index(1) == Some((&k[1], &v[1])));
+        assert!(m.get_index(2) == Some((&k[0], &v[0])));
+        assert!(find(&m, h[0], k[0]) == Some(2));
+
+        // retain: keeps exactly the entries the predicate accepts, in order
+        let keep: [bool; 3] = [kani::any(), kani::any(), kani::any()];
+        m.retain(|key, _| {
+            if *key == k[0] {
+                keep[0]
+            } else if *key == k[1] {
+                keep[1]
+            } else {
+                keep[2]
+            }
+        });
+        let n = keep[0] as usize + keep[1] as usize + keep[2] as usize;
+        assert!(m.len() == n);
+        let mut pos = 0;
+        let mut j = 3;
+        while j > 0 {
+            j -= 1;
+            if keep[j] {
+                assert!(m.get_index(pos) == Some((&k[j], &v[j])));
+                pos += 1;
+            }
+        }
+        assert!(m.get_index(n).is_none());
+
+        // pop: the last entry, with its own hash
+        let p = m.pop();
+        let last = if keep[0] {
+            Some(0)
+        } else if keep[1] {
+            Some(1)
+        } else if keep[2] {
+            Some(2)
+        } else {
+            None
+        };
+        match (p, last) {
+            (Some((pk, pv)), Some(l)) => {
+                assert!(*pk.key() == k[l] && pk.hash().get() == h[l] && pv == v[l]);
+                assert!(m.len() == n - 1);
+            }
+            (None, None) => {}
+            _ => assert!(false),
+        }
+        kani::cover!(keep[0] && !keep[1] && keep[2]);
+        kani::cover!(!keep[0] && !keep[1] && !keep[2]);
+    }
 }
